@@ -130,6 +130,7 @@ def check(F, R):
         R.ob("NUM-SPELL", "lp_bound", False, "", "lp_bound not found")
     # ---- SIGN-SPLIT ---------------------------------------------------------------------
     c12.sign_split(F, R, prop_filter=lambda g: g.get("file", "").endswith("linear_model.rs") and ("lp_" in g["path"] or "to_lp_format" in g["path"]))
+    c12.tolerant_in_printer(F, R, prop_filter=lambda g: g.get("file", "").endswith("linear_model.rs") and ("lp_" in g["path"] or "to_lp_format" in g["path"]))
     # every magnitude printed by the LP writer has its sign decided by an exact comparison
     for p in (FN, "transformers::linear_model::lp_terms"):
         g = F.fn(p)
